@@ -93,6 +93,7 @@ def run_cases(ctx, pairs, name="mod"):
     for main, sub in pairs:
         r = out[main["id"]]
         rc = enumgen.last_rc(r["runs"])
+        enumgen.check_infra(r["compile"])
         rel, gen = enumgen.generated_file(r["written"])
         im = {"exit": str(rc)}
         sim = {}
